@@ -241,10 +241,10 @@ func writeCopies(repo, out string) {
 	entries := []string{}
 	checkHelpers(v1, "v1")
 	entries = append(entries, copyEntries(v1, []string{"mapAttributeValueToTypes", "mapAttributeValueListToTypes"}, "v1", "in")...)
-	entries = append(entries, copyEntries(v1, []string{"mapAttributeValueToDynamodb", "mapAttributeValueListToDynamodb"}, "v1", "out")...)
+	entries = append(entries, copyEntries(v1, []string{"mapAttributeValueToDynamodb", "mapAttributeValueListToDynamodb", "mapLastEvaluatedKey"}, "v1", "out")...)
 	checkHelpers(v2, "v2")
 	entries = append(entries, copyEntries(v2, []string{"mapDynamoToTypesItem", "mapDynamoToTypesAttributeDefinitionMapOrList"}, "v2", "in")...)
-	entries = append(entries, copyEntries(v2, []string{"mapTypesToDynamoItem", "mapTypesToDynamoAttributeDefinitionMapOrList"}, "v2", "out")...)
+	entries = append(entries, copyEntries(v2, []string{"mapTypesToDynamoItem", "mapTypesToDynamoAttributeDefinitionMapOrList", "mapLastEvaluatedKey"}, "v2", "out")...)
 	b.WriteString("(* sdk, direction (in: request -> stored, out: stored -> response), attribute-value kind, shares memory with its argument *)\n")
 	fmt.Fprintf(&b, "Definition copy_table : list (str * str * str * bool) :=\n  [%s].\n", strings.Join(entries, ";\n   "))
 	old, err := os.ReadFile(out)
